@@ -352,12 +352,19 @@ func checkC12(c *core.Ctx) {
 				I, Nodes, Goroutines         int
 				Behaviour, Problem, Classify string
 				Summary                      bool
+				Sends, Full, Empty, Maxlen   int
 			}
 			if len(ln) == 0 || json.Unmarshal(ln, &o) != nil {
 				continue
 			}
 			if o.Summary {
 				sawSummary = true
+				// what the hook in IterVisitor.send observed: both regimes (producer blocked on a full
+				// channel, consumer waiting on an empty one) have to occur for the stress to mean anything
+				c.Count("iterator_sends_observed", o.Sends)
+				c.Count("producer_found_channel_full", o.Full)
+				c.Count("producer_found_channel_empty", o.Empty)
+				c.Extra(fmt.Sprintf("max_backlog_gomaxprocs_%d", procs), o.Maxlen)
 				if o.Goroutines > 2 {
 					c.Violate("iterator", k, "iterator:leak", fmt.Sprintf("%d goroutines alive after all iterations finished", o.Goroutines), nil)
 				}
